@@ -1,6 +1,8 @@
 # Spec functions for resolve_syntatic_sugar (C06): comprehensions lowered to Select / Where chains.
 import ast
 from specrt import *   # noqa
+from dc import *   # noqa
+from fill import *   # noqa
 
 
 def lam1(name: S, body: Py) -> Py:
@@ -63,8 +65,54 @@ def lower_sugar(n: Py) -> Py:
     if isinstance(n, ast.ListComp) or isinstance(n, ast.GeneratorExp):
         return lower_comp(map_children(lower_sugar, n))
     if isinstance(n, ast.Call):
-        return uf("lower_dataclass_call", map_children(lower_sugar, n))
+        return lower_call(map_children(lower_sugar, n))
     return map_children(lower_sugar, n)
+
+
+def param_names(ps: L) -> L:
+    if is_empty(ps):
+        return []
+    return cons(param_name(head(ps)), param_names(tail(ps)))
+
+
+def dc_dict(a: Py, names: L) -> Py:
+    """The dictionary a record constructor call stands for: positional arguments bind the leading
+    fields, keywords the fields they name, in declaration order (C06)."""
+    return ast.Dict(consts(concat(take(names, len(a.args)),
+                                  sel_names(drop(names, len(a.args)), rev(a.keywords)))),
+                    concat(a.args, sel_vals(drop(names, len(a.args)), rev(a.keywords))))
+
+
+def dc_bad(a: Py, names: L) -> B:
+    """Malformed constructor call: surplus arguments, a keyword that names no field or a field
+    already bound by position."""
+    return len(names) < len(a.args) + len(a.keywords) or \
+        bad_kw(kw_args(rev(a.keywords)), names, len(a.args))
+
+
+def lower_call(a: Py) -> Py:
+    """a: a Call whose children are already lowered.  A call whose callee is a data class or a
+    named tuple (a class object embedded as a constant) becomes a dictionary; any other call stays."""
+    if isinstance(a, ast.Call):
+        if isinstance(a.func, ast.Constant):
+            if is_dataclass_value(a.func.value):
+                return dc_dict(a, param_names(params_of(a.func.value)))
+            if has_fields_attr(a.func.value):
+                return dc_dict(a, fields_attr(a.func.value))
+    return a
+
+
+def lem_pnames_str(ps: L) -> B:
+    return implies(all_params(ps), all_str(param_names(ps)))
+
+
+def lem_pnames_snoc(d: L, x: Py) -> B:
+    return same(param_names(concat(d, [x])), concat(param_names(d), [param_name(x)]))
+
+
+def lem_kwl_ok(l: L) -> B:
+    """The grammar's keyword lists are lists of keyword nodes named by a string or None."""
+    return implies(wf_kwlist(l), kws_ok(l))
 
 
 
